@@ -404,8 +404,15 @@ func sameSource(a, b ssa.Value) bool {
 	}
 	ua, ok1 := a.(*ssa.UnOp)
 	ub, ok2 := b.(*ssa.UnOp)
-	if ok1 && ok2 && ua.Op == token.MUL && ub.Op == token.MUL && ua.X == ub.X {
-		return true
+	if ok1 && ok2 && ua.Op == token.MUL && ub.Op == token.MUL {
+		if ua.X == ub.X {
+			return true
+		}
+		fa, okA := ua.X.(*ssa.FieldAddr)
+		fb, okB := ub.X.(*ssa.FieldAddr)
+		if okA && okB && fa.Field == fb.Field && fa.X == fb.X {
+			return true
+		}
 	}
 	return false
 }
